@@ -99,6 +99,36 @@ fn check(p: &synth::Prog, detectors: &[Detector], tier: Tier) -> Out {
             }
         }
     }
+    // "code-like text inside string literals never produces a finding of its own": the same tokens with the CONTENT of every plain
+    // string literal replaced by x's of the same byte length flag the same tokens
+    if p.toks.iter().any(|t| t.len() > 2 && t.starts_with('"') && t.ends_with('"')) {
+        let blanked: Vec<String> = p.toks.iter().map(|t| if t.len() > 2 && t.starts_with('"') && t.ends_with('"') { format!("\"{}\"", "x".repeat(t.len() - 2)) } else { t.clone() }).collect();
+        let (bt, _) = synth::render_l1(&blanked);
+        if solang_parser::parse(&bt, 0).is_ok() {
+            out.layouts += 1;
+            out.parsed_ok += 1;
+            for (di, d) in detectors.iter().enumerate() {
+                let f = match &flagged[di] {
+                    Some(f) => f,
+                    None => continue,
+                };
+                let want: BTreeSet<i32> = f.iter().map(|&t| (t + 1) as i32).collect();
+                out.calls += 1;
+                let got = dets::run_guarded(d, &bt, 0);
+                if got.as_ref().ok() != Some(&want) {
+                    out.violations.push(Violation {
+                        site: format!("{}:finding-depends-on-the-text-of-a-string-literal", d.name),
+                        input: bt.clone(),
+                        expected: format!("lines {:?}, as with the original string contents ({})", want, p.toks.iter().filter(|t| t.starts_with('"')).cloned().collect::<Vec<_>>().join(" ")),
+                        observed: format!("{:?}", got),
+                        size: n * 1000 + 500,
+                        unit_test: String::new(),
+                        extra: json!({"tag": p.tag, "tokens": p.toks}),
+                    });
+                }
+            }
+        }
+    }
     // layouts that are extreme in one respect (only for detectors that flag something in this program): a first line of 66 000
     // blanks, a first line that is a 70 000-byte comment, a comment line holding NEL / LINE SEPARATOR / PARAGRAPH SEPARATOR / a lone
     // CR, and a vertical tab or form feed directly after every line feed that follows the first `;` (the lexer reads a pragma's
